@@ -77,6 +77,11 @@ var faultContexts = []faultContext{
 	{"in-merge-operand", "numbers(5).map(e -> e + (if e = 3 then %s else 0)).merge(numbers(5), (p, q) -> p < q).size()", false, false, ""},
 	{"in-merge-second-operand", "numbers(5).merge(numbers(5).map(e -> e + (if e = 3 then %s else 0)), (p, q) -> p < q).size()", false, false, ""},
 	{"in-merge-less", "numbers(5).merge(numbers(5), (p, q) -> p < q + %s).size()", false, false, ""},
+	// the operand is a stage WITHOUT a recover of its own (number runs its closure in the producer): on the goroutine iterator.ToChan
+	// starts for the operand only recoverProducer stands between the panic and the end of the process (P2.Recover: mergeA, mergeB)
+	{"in-merge-operand-unguarded-stage", "numbers(5).number((n, e) -> e + (if e = 3 then %s else 0)).merge(numbers(5), (p, q) -> p < q).size()", false, false, ""},
+	{"in-merge-second-operand-unguarded-stage", "numbers(5).merge(numbers(5).number((n, e) -> e + (if e = 3 then %s else 0)), (p, q) -> p < q).size()", false, false, ""},
+	{"in-merge-second-operand-unguarded-stage-in-try", "try numbers(5).merge(numbers(5).combine((p, r) -> p + (if r = 3 then %s else 0)), (p, q) -> p < q).size() catch 0 - 99", true, false, ""},
 	{"in-multiUse-consumer", "numbers(5).multiUse({s: l -> l.map(e -> e + %s).sum(), n: l -> l.size()}).s", false, false, ""},
 	{"in-multiUse-source", "numbers(5).map(e -> e + (if e = 3 then %s else 0)).multiUse({s: l -> l.sum(), n: l -> l.size()}).n", false, false, ""},
 	{"in-multiUse-consumer-lazy-combine-result", "numbers(5).multiUse({s: l -> l.combine((p, q) -> p + %s), n: l -> l.size()}).s.size()", false, false, ""},
